@@ -274,6 +274,11 @@ def JTy.ptrDecodable : JTy → Bool
   | .iface _ => true
   | _ => false
 
+/-- a byte array / `[]byte` type with an object code held by value: its length and code. -/
+def JTy.byValueTyped : JTy → Option (Option Nat × Nat)
+  | .typedBytes false n code _ => some (n, code)
+  | _ => none
+
 /-! ## the encoder -/
 
 def encTime (n : Int) : Except Err Json :=
@@ -361,9 +366,9 @@ def encFields : Fields → List Val → List (String × Json) → Except Err (Li
     else do
       -- a tag's field key takes precedence over the registered one in `ts.merge`: a typed byte array
       -- held by value is written under the *field's* key (the harness always writes that key into the tag)
-      let j ← match t with
-        | .typedBytes false n code _ => encTypedBytes false n code key v
-        | _ => mapEncode t v
+      let j ← (match t.byValueTyped with
+        | some (n, code) => encTypedBytes false n code key v
+        | none => mapEncode t v)
       encFields rest vs (objSet acc key j)
   | .embedded false fs rest, .struct xs :: vs, acc => do
     let acc' ← encFields fs xs acc
@@ -401,6 +406,16 @@ def asArr : Json → Except Err (List Json)
 def ofOpt {α : Type} : Option α → Except Err α
   | some a => .ok a
   | none => .error .err
+
+/-- `mapDecodeBytes` for type settings with an object code: the hex string sits under the field key
+of the object `mapEncodeSlice` writes (the `type` member is not looked at). -/
+def decTypedBytes (n : Option Nat) (key : String) (j : Json) : Except Err Val := do
+  let m ← asObj j
+  let s ← asStr (← ofOpt (jlookup key m))
+  let bs ← ofOpt (decodeHex s)
+  pure (.bytes (match n with
+    | some n => fit n bs
+    | none => bs))
 
 /-- the `type` member compared with the registered object code (`uint32(float64)`). -/
 def checkType (code : Option Nat) (m : List (String × Json)) : Except Err Unit :=
@@ -464,27 +479,13 @@ def mapDecode : JTy → Json → Except Err Val
     let bs ← ofOpt (decodeHex s)
     checkLen o bnd bs.length
     pure (.bytes bs)
-  | .byteArr false n, j => do
+  -- by value and through a pointer without registered object code: a bare hex string
+  | .byteArr _ n, j => do
     let s ← asStr j
     let bs ← ofOpt (decodeHex s)
     pure (.bytes (fit n bs))
-  | .byteArr true _, _ => .error .err          -- "missing type settings": *[n]byte needs an object code
-  | .typedBytes true (some n) _ key, j => do
-    let m ← asObj j
-    let s ← asStr (← ofOpt (jlookup key m))
-    let bs ← ofOpt (decodeHex s)
-    pure (.bytes (fit n bs))
-  -- by value the kind is an ordinary byte array / byte slice: the decoder expects a bare hex string
-  -- (and so can never read the object the encoder writes for a type with an object code)
-  | .typedBytes false (some n) _ _, j => do
-    let s ← asStr j
-    let bs ← ofOpt (decodeHex s)
-    pure (.bytes (fit n bs))
-  | .typedBytes false none _ _, j => do
-    let s ← asStr j
-    let bs ← ofOpt (decodeHex s)
-    pure (.bytes bs)
   | .typedBytes true none _ _, _ => .error .err   -- pointer to a slice: no branch
+  | .typedBytes _ n _ key, j => decTypedBytes n key j
   | .u256, j => do
     let s ← asStr j
     let n ← ofOpt (decodeBig s)
@@ -525,7 +526,10 @@ def decFields : Fields → List (String × Json) → Except Err (List Val)
     | none =>
       if opt || omt then (decFields rest m).map (missingVal t :: ·) else .error .err
     | some j => do
-      let v ← mapDecode t j
+      -- as on the encoding side the field's key takes precedence over the registered one
+      let v ← (match t.byValueTyped with
+        | some (n, _) => decTypedBytes n key j
+        | none => mapDecode t j)
       let vs ← decFields rest m
       pure (v :: vs)
   | .embedded viaPtr fs rest, m => do
@@ -590,20 +594,25 @@ def codeOk : Option Nat → Bool
   | some c => c < 2 ^ 32
 
 /-- an interface alternative is a (pointer to a) struct carrying exactly the registered code, or a
-pointer to a typed byte array with that code. -/
+typed byte array / typed `[]byte` (by value or through a pointer) with that code. -/
 def altShape (c : Nat) : JTy → Bool
   | .struct (some c') _ => c' = c
   | .ptr (.struct (some c') _) => c' = c
-  | .typedBytes true (some _) c' _ => c' = c
+  | .typedBytes _ _ c' _ => c' = c
   | _ => false
+
+/-- a typed byte array held by value in a named field is written under the field's key, next to its
+`type` member. -/
+def fieldKeyOk (key : String) (t : JTy) : Bool :=
+  match t.byValueTyped with
+  | some _ => key != "type"
+  | none => true
 
 mutual
 /-- **`JsonExpressible`** as a Boolean function: the shapes whose map form can be decoded again.
 Excluded, with the reason:
-* `*[n]byte` without object code — the decoder demands registered type settings for it;
-* a typed byte array / typed `[]byte` held *by value* — the encoder emits `{"type":c,key:"0x…"}`,
-  the decoder of the by-value kind expects a bare hex string (known finding);
-* a typed byte array whose key is `type` — the two members collide;
+* a typed byte array whose key is `type` — the two members collide; a pointer to a typed `[]byte`
+  (no pointer-to-slice branch);
 * map keys other than string / 64-bit integer / untyped byte array — a JSON member name is a
   string, the encoder panics on anything else (`k.(string)`); float, time, pointer and
   self-serialising keys are not modelled;
@@ -612,7 +621,7 @@ Excluded, with the reason:
 * `optional` on a type that cannot be nil (rejected by `parseStructFields` anyway);
 * pointers to anything but struct / time / array (the encoder has no branch for them);
 * interface alternatives that are not a (pointer to a) struct with exactly the registered code or
-  a pointer to a typed byte array with that code, codes ≥ 2^32, duplicate codes;
+  typed bytes with that code, codes ≥ 2^32, duplicate codes;
 * integer widths other than 8/16/32/64, float widths other than 32/64, object codes ≥ 2^32
   (they are `uint8`/`uint32` in Go). -/
 def expressible : JTy → Bool
@@ -622,8 +631,8 @@ def expressible : JTy → Bool
   | .float w => w = 32 || w = 64
   | .str _ => true
   | .bytes _ => true
-  | .byteArr viaPtr _ => !viaPtr
-  | .typedBytes viaPtr n _ key => viaPtr && n.isSome && key != "type"
+  | .byteArr _ _ => true
+  | .typedBytes viaPtr n _ key => (!viaPtr || n.isSome) && key != "type"
   | .u256 => true
   | .time => true
   | .slice _ e => expressible e
@@ -634,7 +643,8 @@ def expressible : JTy → Bool
   | .iface alts => altsExpressible alts []
 def fieldsExpressible : Fields → Bool
   | .nil => true
-  | .named _ opt _ t rest => (!opt || t.nilable) && expressible t && fieldsExpressible rest
+  | .named key opt _ t rest =>
+    (!opt || t.nilable) && fieldKeyOk key t && expressible t && fieldsExpressible rest
   | .embedded _ fs rest => fieldsExpressible fs && fieldsExpressible rest
   | .inlined code fs rest => codeOk code && fieldsExpressible fs && fieldsExpressible rest
 def altsExpressible : Alts → List Nat → Bool
